@@ -188,6 +188,12 @@ def generate(repo):
     w("  match currency_from_char c with Some k => Some (PCurrency k) | None => None end.")
     w("Definition punct_table : list (N * punct) :=\n  [" + "; ".join("(%d, P%s)" % (cp, v) for cp, v in p_rows) + "].")
     w("Definition currency_table : list (N * currency) :=\n  [" + "; ".join("(%d, Cur%s)" % (cp, v) for cp, v in cur_rows) + "].")
+    # variant names (code points), used by the model driver to print kinds the way the harness prints Rust's Debug names
+    w("Definition currency_name (c : currency) : list N :=\n  match c with " + " | ".join("Cur%s => %s" % (v, text_of(v)) for v, _ in cur_vars) + " end.")
+    pn = []
+    for v, arg in p_vars:
+        pn.append("P%s%s => %s" % (v, " _" if arg is not None else "", text_of(v)))
+    w("Definition punct_name (p : punct) : list N :=\n  match p with " + " | ".join(pn) + " end.")
     w("")
 
     # ---- lex_quote
@@ -274,6 +280,7 @@ def generate(repo):
     rows2 = re.findall(r"NumberSuffix::(\w+)\s*=>\s*vec!\[(%s),\s*(%s)\]" % (CHAR_RE, CHAR_RE), b)
     if {r[0] for r in rows2} != {v for v, _ in s_vars}:
         raise Shape("NumberSuffix::to_chars not recognised")
+    w("Definition suffix_name (s : num_suffix) : list N :=\n  match s with " + " | ".join("Suf%s => %s" % (v, text_of(v)) for v, _ in s_vars) + " end.")
     w("Definition suffix_to_chars (s : num_suffix) : list N :=\n  match s with " + " | ".join("Suf%s => %s" % (v, nlist([char_lit(a), char_lit(c)])) for v, a, c in rows2) + " end.")
     w("")
 
